@@ -206,6 +206,19 @@ VALSETS = [[0, 1, 2, 3], [-3, -2, -1, 0, 0, 1, 2, 3], [0, 0, 0, 5, -5, 100, -7],
 def gen_case(rng, tier, ctx, i):
     r = rng.random()
     vals = rng.choice(VALSETS)
+    if rng.random() < 0.012:
+        # a batch of wide members (what a configurator with hundreds of variables hands over for several requests): a default row of -1/-2 and
+        # a sparse signed request row per member; the members agree in their first and last columns and differ in the middle
+        w = rng.randint(520, 640)
+        base = [rng.choice([-1, -1, -1, -2]) for _ in range(w)]
+        members = []
+        for _ in range(rng.randint(2, 4)):
+            req = [0] * w
+            for j in rng.sample(range(5, w - 5), rng.randint(0, 6)):
+                req[j] = rng.choice([-3, -2, -1, 1, 2, 3])
+            members.append([list(base), req])
+        ctx.count("count:wide-batch")
+        return {"data": members, "method": "shadow", "axis": 0, "via": "method"}
     if r < 0.2:
         shape = [rng.randint(1, 9)]
         axis = None
